@@ -1,6 +1,7 @@
 package main
 
 import (
+	"regexp"
 	"bytes"
 	"context"
 	"crypto/sha256"
@@ -21,6 +22,88 @@ type solverCfg struct {
 	useCache bool
 	workDir  string
 	agree    bool // thorough: ask every solver
+}
+
+var reSymTok = regexp.MustCompile(`[A-Za-z_$][A-Za-z0-9_.$!]*`)
+
+func termSyms(t Term) map[string]bool {
+	m := map[string]bool{}
+	for _, tok := range reSymTok.FindAllString(t, -1) {
+		if strings.Contains(tok, "!") || strings.HasPrefix(tok, "sf$") {
+			m[tok] = true
+		}
+	}
+	return m
+}
+
+// relevantPC keeps the assumptions connected to the goal through shared symbols (hub symbols that occur in a large
+// share of all assumptions do not connect). Dropping assumptions is always sound for a validity query.
+func relevantPC(pc []Term, goal Term, rounds int) []Term {
+	syms := make([]map[string]bool, len(pc))
+	freq := map[string]int{}
+	for i, a := range pc {
+		syms[i] = termSyms(a)
+		for s := range syms[i] {
+			freq[s]++
+		}
+	}
+	hub := map[string]bool{}
+	for s, n := range freq {
+		if n*5 > len(pc) && n > 12 {
+			hub[s] = true
+		}
+	}
+	cur := termSyms(goal)
+	chosen := make([]bool, len(pc))
+	for r := 0; r < rounds; r++ {
+		added := false
+		var newSyms []string
+		for i := range pc {
+			if chosen[i] {
+				continue
+			}
+			for s := range syms[i] {
+				if cur[s] && !hub[s] {
+					chosen[i] = true
+					added = true
+					for t := range syms[i] {
+						newSyms = append(newSyms, t)
+					}
+					break
+				}
+			}
+		}
+		for _, t := range newSyms {
+			cur[t] = true
+		}
+		if !added {
+			break
+		}
+	}
+	var out []Term
+	for i, a := range pc {
+		if chosen[i] {
+			out = append(out, a)
+		}
+	}
+	return out
+}
+
+func (u *Unit) smtTextPC(o *Obligation, pc []Term, axioms []Term) string {
+	var b strings.Builder
+	b.WriteString("(set-logic ALL)\n")
+	b.WriteString(u.decls.text())
+	for _, a := range axioms {
+		b.WriteString("(assert " + a + ")\n")
+	}
+	if d := u.strDistinctAxiom(); d != "true" {
+		b.WriteString("(assert " + d + ")\n")
+	}
+	for _, p := range pc {
+		b.WriteString("(assert " + p + ")\n")
+	}
+	b.WriteString("(assert (not " + o.Goal + "))\n(check-sat)\n")
+	return b.String()
 }
 
 func (u *Unit) smtText(o *Obligation, models bool) string {
@@ -82,7 +165,15 @@ func runSolver(sr solverRun, file string, timeout time.Duration) (string, string
 	cmd.Run()
 	el := time.Since(t0).Seconds()
 	txt := out.String()
-	first := strings.TrimSpace(strings.SplitN(txt, "\n", 2)[0])
+	first := ""
+	for _, l := range strings.Split(txt, "\n") {
+		l = strings.TrimSpace(l)
+		if l == "" || strings.HasPrefix(l, "WARNING") {
+			continue
+		}
+		first = l
+		break
+	}
 	switch first {
 	case "sat", "unsat", "unknown":
 		return first, txt, el
@@ -134,10 +225,63 @@ func (u *Unit) discharge(o *Obligation, cfg *solverCfg, seq int) {
 	os.WriteFile(file, []byte(txt), 0o644)
 	defer os.Remove(file)
 	var outs []string
+	quickDone := false
+	if o.Expect == "unsat" && !cfg.agree {
+		// attempt 0: the full query, first solver, short budget (most obligations end here)
+		res, out, el := runSolver(solvers[0], file, 2*time.Second)
+		if res == "unsat" || res == "sat" {
+			o.Result, o.Backend, o.TimeS, o.Output = res, solvers[0].name, el, fmt.Sprintf("[%s] %s", solvers[0].name, strings.TrimSpace(firstLines(out, 3)))
+			quickDone = true
+		}
+	}
+	if !quickDone && o.Expect == "unsat" && len(o.PC) > 30 {
+		// attempt 1: only the assumptions connected to the goal (sound: fewer hypotheses), short budget
+		for _, rounds := range []int{1, 3} {
+			rpc := relevantPC(o.PC, o.Goal, rounds)
+			if len(rpc) >= len(o.PC) {
+				break
+			}
+			var rax []Term
+			gs := termSyms(o.Goal)
+			for _, p := range rpc {
+				for s := range termSyms(p) {
+					gs[s] = true
+				}
+			}
+			for _, a := range u.axioms {
+				keep := false
+				for s := range termSyms(a) {
+					if gs[s] {
+						keep = true
+					}
+				}
+				if keep || !strings.Contains(a, "forall") {
+					rax = append(rax, a)
+				}
+			}
+			rfile := filepath.Join(cfg.workDir, fmt.Sprintf("q%06d.r%d.smt2", seq, rounds))
+			os.WriteFile(rfile, []byte(u.smtTextPC(o, rpc, rax)), 0o644)
+			res, _, el := runSolver(solvers[0], rfile, 2*time.Second)
+			os.Remove(rfile)
+			if res == "unsat" {
+				o.Result, o.Backend, o.TimeS = "unsat", solvers[0].name+"(relevant)", el
+				if cfg.useCache {
+					os.MkdirAll(filepath.Dir(cpath), 0o755)
+					data, _ := json.Marshal(cacheEntry{"unsat", o.Backend, el, ""})
+					os.WriteFile(cpath, data, 0o644)
+				}
+				return
+			}
+		}
+	}
 	final := "unknown"
 	backend := ""
 	total := 0.0
 	per := cfg.timeout
+	if quickDone {
+		final, backend, total = o.Result, o.Backend, o.TimeS
+		outs = append(outs, o.Output)
+	}
 	results := map[string]string{}
 	use := solvers
 	if o.Expect == "sat" {
@@ -153,6 +297,9 @@ func (u *Unit) discharge(o *Obligation, cfg *solverCfg, seq int) {
 		use = []solverRun{solvers[0], solvers[1], solvers[2], solvers[0]}
 	}
 	for si, sr := range use {
+		if quickDone {
+			break
+		}
 		per := per
 		if si == 0 && len(use) == 4 && per > 3*time.Second {
 			per = 3 * time.Second
